@@ -1173,7 +1173,7 @@ class Emitter:
         self.lowerings['L-ref(temporary -> compound literal)'] += 1
         if t[0] == 'a':
             raise ExtractError('array temporary')
-        return '(*(%s[1]){ %s })' % (self.cdecl(self._strip_top_quals_deep(t)), self.E(sub))
+        return '(*(%s){ %s })' % (self.cdecl(('a', self._strip_top_quals_deep(t), 1)), self.E(sub))
 
     def _strip_top_quals_deep(self, t):
         if t[0] == 'c':
